@@ -80,6 +80,8 @@ def lower_targets(spec, failed=None):
             else:
                 ex = X.extract_function(REPO, t.file, t.locate, t.index, t.count)
             body = ex.body
+            if t.init_list:
+                body = '{ ' + X.init_list_statements(ex.sig, what=t.name) + body[body.index('{') + 1:]
             if t.pre_rules:
                 body, _ = X.apply_rules(body, t.pre_rules, what=t.name)
             if t.defers:
